@@ -1297,3 +1297,120 @@ def numeric_program(cfg=None):
         g = GN(draw, cfg)
         return g.scenario()
     return strat()
+
+
+# ======================================================================================
+# repl profile (C19): histories of single line prompt entries
+# ======================================================================================
+class GR(G):
+    def __init__(self, draw, cfg=None):
+        G.__init__(self, draw, cfg or Cfg(max_depth=2, p_confuse=0))
+        self.nums = []
+        self.fns = []  # (name, nparams)
+        self.classes = []  # (name, has_parent)
+        self.objs = []
+        self.users = []  # functions taking an object
+
+    def numx(self):
+        c = self.i(0, 9)
+        if self.nums and c < 4:
+            return ("var", self.pick(self.nums))
+        if self.fns and c < 6:
+            f, n = self.pick(self.fns)
+            return ("call", ("var", f), [("num", float(self.i(0, 9))) for _ in range(n)])
+        if self.objs and c < 8:
+            o = self.pick(self.objs)
+            return self.pick([("call", ("prop", ("var", o), "get"), []), ("prop", ("var", o), "f"),
+                              ("call", ("prop", ("var", o), "twice"), [])])
+        return ("num", float(self.i(0, 20)))
+
+    def nexpr(self):
+        if self.chance(50):
+            return ("bin", self.pick(["+", "-", "*"]), self.numx(), self.numx())
+        return self.numx()
+
+    def entry(self):
+        """-> ("ok", stmt) | ("bad", text)"""
+        c = self.i(0, 99)
+        if c < 14:
+            v = self.fresh("v")
+            s = ("let", v, self.nexpr())
+            self.nums.append(v)
+            return ("ok", s)
+        if c < 26:
+            f = self.fresh("f")
+            n = self.i(0, 2)
+            params = [self.fresh("p") for _ in range(n)]
+            body = ("bin", "+", self.nexpr(), ("var", params[0])) if params else self.nexpr()
+            s = ("fn", f, params, [("return", body)])
+            self.fns.append((f, n))
+            return ("ok", s)
+        if c < 38:
+            k = self.fresh("K")
+            parent = None
+            if self.classes and self.chance(40):
+                parent = self.pick(self.classes)
+                methods = [("get", [], [("implicit", ("bin", "+", ("call", ("super", "get"), []), ("num", float(self.i(1, 5)))))])]
+                s = ("class", k, parent, None, methods, [])
+            else:
+                s = ("class", k, None, ("init", ["a"], [("expr", ("assign", ("prop", ("self",), "f"), ("var", "a")))]),
+                     [("get", [], [("implicit", ("prop", ("self",), "f"))]),
+                      ("twice", [], [("implicit", ("bin", "*", ("call", ("prop", ("self",), "get"), []), ("num", 2.0)))])], [])
+            self.classes.append(k)
+            return ("ok", s)
+        if c < 48 and self.classes:
+            o = self.fresh("o")
+            s = ("let", o, ("call", ("var", self.pick(self.classes)), [self.nexpr()]))
+            self.objs.append(o)
+            return ("ok", s)
+        if c < 56:
+            u = self.fresh("u")
+            s = ("fn", u, ["o"], [("return", ("bin", "+", ("call", ("prop", ("var", "o"), "get"), []), ("prop", ("var", "o"), "f")))])
+            self.users.append(u)
+            return ("ok", s)
+        if c < 72:
+            if self.users and self.objs and self.chance(50):
+                return ("ok", ("print", ("call", ("var", self.pick(self.users)), [("var", self.pick(self.objs))])))
+            return ("ok", ("print", self.nexpr()))
+        if c < 80 and self.nums:
+            return ("ok", ("expr", ("assign", ("var", self.pick(self.nums)), self.nexpr())))
+        if c < 86 and self.objs:
+            return ("ok", ("expr", ("assign", ("prop", ("var", self.pick(self.objs)), "f"), self.nexpr())))
+        k = self.i(0, 4)
+        return ("bad", ["print(1;", "let = 5;", "raise Error(\"x\");", "print(undeclared_zz);", "class { }", ][k])
+
+    def forced(self, lo, hi):
+        """An entry of the kind selected by the window [lo, hi) of entry()'s choice table."""
+        saved = self.i
+        first = [True]
+
+        def fake(a, b, _saved=saved):
+            if first[0] and (a, b) == (0, 99):
+                first[0] = False
+                return lo
+            return _saved(a, b)
+        self.i = fake
+        try:
+            return self.entry()
+        finally:
+            self.i = saved
+
+    def history(self):
+        out = []
+        if self.chance(70):
+            # a class, an instance and a function with property / invoke sites early in the session
+            out.append(self.forced(26, 38))
+            out.append(self.forced(38, 48))
+            out.append(self.forced(48, 56))
+        out.extend(self.entry() for _ in range(self.i(3, 15)))
+        if self.users and self.objs:
+            out.append(("ok", ("print", ("call", ("var", self.pick(self.users)), [("var", self.pick(self.objs))]))))
+        return out
+
+
+def repl_history(cfg=None):
+    @st.composite
+    def strat(draw):
+        g = GR(draw, cfg)
+        return g.history()
+    return strat()
